@@ -1,6 +1,6 @@
 //! `verif-harness replay --replay FILE --out DIR`: re-run the lines of a replay file on the real code
 //! (with the implementation-only oracles) and emit the request lines for the model.
-use crate::engines::{ring, dec, headers, hostile, matcher, reuse, tables, window};
+use crate::engines::{bits, dec, dictbuilder, enc, fse, headers, hostile, huf, io, matcher, reuse, ring, tables, window};
 use crate::util::*;
 
 fn dec_lines(run: &mut Run, lines: &[String]) {
@@ -96,6 +96,29 @@ pub fn run(opts: &Opts) -> Run {
     }
     for l in lines.iter().filter(|l| l.starts_with("reuse ")) {
         reuse::replay_line(&mut run, l);
+    }
+    // component engines: one request per line, re-executed on the real code (their implementation-only oracles run
+    // again where the engine's replay entry point evaluates them); anything else is shown to the model only
+    let mut rng = Rng::new(1);
+    for l in lines.iter() {
+        let eng = l.split(' ').next().unwrap_or("");
+        match eng {
+            "bits" => run.case(l.clone(), bits::replay_line(l).unwrap_or_else(|| "(model only)".into())),
+            "dictbuilder" => run.case(l.clone(), dictbuilder::replay_line(l).unwrap_or_else(|| "(model only)".into())),
+            "enc" => run.case(l.clone(), enc::replay_line(l).unwrap_or_else(|| "(model only)".into())),
+            "io" => run.case(l.clone(), io::replay_line(l).unwrap_or_else(|| "(model only)".into())),
+            "huf" => {
+                let a = huf::replay_line(&mut run, l).unwrap_or_else(|| "(model only)".into());
+                run.case(l.clone(), a)
+            }
+            "fse" => {
+                if fse::replay_line(&mut run, &mut rng, l).is_none() {
+                    run.case(l.clone(), "(model only)".into());
+                }
+            }
+            "blk" | "cli" | "mem" => run.case(l.clone(), "(model only)".into()),
+            _ => {}
+        }
     }
     run
 }
